@@ -178,7 +178,7 @@ func runItems(items []Item, extraDir string, nw int) ([]*ItemResult, error) {
 			var in io.WriteCloser
 			var out *bufio.Reader
 			start := func() error {
-				cmd = exec.Command(self, "worker", "--extra", extraDir)
+				cmd = exec.Command(self, "worker", "--extra", extraDir, "--prop", overlayProp)
 				cmd.Stderr = os.Stderr
 				var err error
 				in, err = cmd.StdinPipe()
@@ -289,6 +289,22 @@ func modelInputHex(model map[string]uint64) string {
 	}
 	sort.Strings(names)
 	var sb strings.Builder
+	var scal []string
+	for k := range model {
+		i := strings.LastIndex(k, "_")
+		if i >= 0 {
+			if _, err := strconv.Atoi(k[i+1:]); err == nil {
+				continue
+			}
+		}
+		scal = append(scal, k)
+	}
+	sort.Strings(scal)
+	for _, k := range scal {
+		if len(scal) <= 12 || model[k] != 0 {
+			fmt.Fprintf(&sb, "%s=%d ", k, int64(model[k]))
+		}
+	}
 	for _, n := range names {
 		g := groups[n]
 		l := len(g)
@@ -330,6 +346,7 @@ func checkMain(args []string) int {
 		fmt.Fprintln(os.Stderr, "unknown property", id)
 		return 3
 	}
+	overlayProp = strings.ToLower(id)
 	tier := 0
 	ts := *tierS
 	if ts == "" {
@@ -638,7 +655,9 @@ func main() {
 	case "worker":
 		fs := flag.NewFlagSet("worker", flag.ExitOnError)
 		extra := fs.String("extra", "", "directory with generated harness files")
+		prop := fs.String("prop", "", "property id (selects harness files)")
 		fs.Parse(os.Args[2:])
+		overlayProp = *prop
 		workerMain(*extra)
 	case "run":
 		os.Exit(runMain(os.Args[2:]))
@@ -664,6 +683,12 @@ func runMain(args []string) int {
 	timeout := fs.Int("timeout", 0, "seconds")
 	fs.Parse(args)
 	extra := map[string][]byte{}
+	if m := regexp.MustCompile(`^zz(C\d+)_`).FindStringSubmatch(*fn); m != nil {
+		overlayProp = strings.ToLower(m[1])
+		if *gen == "" {
+			*gen = m[1]
+		}
+	}
 	if *gen != "" && checks[*gen] != nil && checks[*gen].Gen != nil {
 		var err error
 		extra, err = checks[*gen].Gen(*tier)
@@ -717,6 +742,7 @@ func replayMain(args []string) int {
 	tmp, _ := os.MkdirTemp("", "verif-replay-")
 	defer os.RemoveAll(tmp)
 	extra := map[string][]byte{}
+	overlayProp = strings.ToLower(v.Property)
 	if d := checks[v.Property]; d != nil && d.Gen != nil {
 		extra, _ = d.Gen(v.Tier)
 	}
